@@ -322,6 +322,13 @@ def judge(ctx, module, cfg, records, label, workers=None, timeout=3600, env=None
     explain).  Returns (sorted 0-based indices of mismatching records, TLCResult)."""
     if not records:
         raise Infra("no records to judge for " + label)
+    CH = 20000
+    if len(records) > CH:       # big batches: one TLC run per chunk (ndJsonDeserialize and the JVM stay comfortable)
+        bad, last = [], None
+        for k in range(0, len(records), CH):
+            b, last = judge(ctx, module, cfg, records[k:k + CH], "%s-part%d" % (label, k // CH), workers=workers, timeout=timeout, env=env)
+            bad += [k + i for i in b]
+        return sorted(bad), last
     tpath = os.path.join(ctx.work, "trace-%s.ndjson" % label)
     write_ndjson(tpath, records)
     e = {"TRACE": tpath}
